@@ -320,6 +320,11 @@ func runStoreCaseProg(cs *StoreCase, z []zoo.Named, probe storeProbe, prog *atom
 		if len(snaps) > 8 {
 			snaps = snaps[len(snaps)-8:]
 		}
+		if probe != nil { // the caller's own predicates first (they belong to the caller's property)
+			if pk, pd := probe(si, st, s, ref); pk != "" {
+				return pk, pd, stats
+			}
+		}
 		// --- the store's answers against the reference map
 		if s.Len() != len(ref) {
 			return fail("len", "step %d (%s): Len()=%d, reference map has %d entries", si, st.Op, s.Len(), len(ref))
@@ -372,11 +377,6 @@ func runStoreCaseProg(cs *StoreCase, z []zoo.Named, probe storeProbe, prog *atom
 				}
 			}
 		}
-		if probe != nil {
-			if pk, pd := probe(si, st, s, ref); pk != "" {
-				return pk, pd, stats
-			}
-		}
 		stats["steps"]++
 	}
 	return "", "", stats
@@ -394,6 +394,9 @@ func runC14(c *Cfg) {
 		cs := genStoreCase(c, i, 200)
 		if i%5 == 4 {
 			cs = genChurnCase(c, i)
+		}
+		if i%64 == 37 {
+			cs = signedZeroCase(zoo.Fixed(), i/64*40+7)
 		}
 		if i%64 == 21 {
 			cs = genStoreCase(c, i, 60)
